@@ -1,6 +1,6 @@
 import SimbodyModel.Proto
 import SimbodyModel.C17
-/-! Driver for C17.  For every record `I cf threads mode D nf {dbd en par pos nc {slot:val:reps}}…` it builds the
+/-! Driver for C17.  For every record `I cf threads after mode D qcode ucode nf {dbd en par pos dep nc {slot:val:reps}}…` it builds the
 transcription of the current code for the whole subsystem with its enabled mask (`C17.configSubsystem`), runs the transition system (`C17.run`) along the
 sequential — hence race-free — schedule, checks that all workers completed, and prints the resulting shared
 arrays (plus, in mode `NonCached`, the content of the position-only cache that `realizeSubsystemDynamicsImpl` adds
@@ -23,21 +23,22 @@ instance : OfNat V 0 := ⟨⟨[]⟩⟩
 
 def unit (slot : Nat) (v : Int) : V := ⟨List.replicate slot 0 ++ [v]⟩
 
-def parseContrib (t : String) : V :=
+def parseContrib (factor : Int) (t : String) : V :=
   match t.splitOn ":" with
-  | [s, v, r] => unit s.toNat! (v.toInt! * r.toInt!)
+  | [s, v, r] => unit s.toNat! (v.toInt! * factor * r.toInt!)
   | _ => 0
 
-/-- parse `nf` forces (`dbd en par pos nc contribs…`) from the token list; `dbd` (disabled by default) is history only:
-what matters to the model is the current enabled flag -/
-partial def parseForces (nf : Nat) (toks : List String) (acc : Array (C17.MForce V)) : Array (C17.MForce V) :=
+/-- parse `nf` forces (`dbd en par pos dep nc contribs…`) from the token list; `dbd` (disabled by default) is history
+only: what matters to the model is the current enabled flag.  `dep` selects the state-dependent factor of the value. -/
+partial def parseForces (qcode ucode : Int) (nf : Nat) (toks : List String) (acc : Array (C17.MForce V)) : Array (C17.MForce V) :=
   if nf == 0 then acc else
   match toks with
-  | _dbd :: en :: par :: pos :: nc :: rest =>
+  | _dbd :: en :: par :: pos :: dep :: nc :: rest =>
     let n := nc.toNat!
     let cs := rest.take n
-    let value : V := cs.foldl (fun s t => s + parseContrib t) 0
-    parseForces (nf - 1) (rest.drop n) (acc.push ⟨en == "1", ⟨par == "1", pos == "1", value⟩⟩)
+    let factor : Int := if dep == "1" then 1 + qcode else if dep == "2" then 1 + ucode else 1
+    let value : V := cs.foldl (fun s t => s + parseContrib factor t) 0
+    parseForces qcode ucode (nf - 1) (rest.drop n) (acc.push ⟨en == "1", ⟨par == "1", pos == "1", value⟩⟩)
   | _ => acc
 
 def modeOf : Nat → C17.Mode
@@ -45,22 +46,32 @@ def modeOf : Nat → C17.Mode
   | 1 => .cachedAndNonCached
   | _ => .nonCached
 
+def padTo (D : Nat) (v : V) : List Int := v.a ++ List.replicate (D - v.a.length) 0
+
 def handle (toks : List String) : String :=
   match toks with
-  | th :: md :: d :: nf :: rest =>
-    let all := (parseForces nf.toNat! rest #[]).toList
+  | th :: af :: md :: d :: qc :: uc :: nf :: rest =>
+    let all := (parseForces qc.toInt! uc.toInt! nf.toNat! rest #[]).toList
     let forces := C17.enabledElts all
     let mode := modeOf md.toNat!
-    let c := C17.configSubsystem th.toNat! mode all
+    let hp := C17.subsystemHasParallel all
+    -- the subsystem state reached by the recorded order of setNumberOfThreads / realizeTopology
+    let st0 := C17.SubState.init 16
+    let st := if af == "1" then (st0.apply (.realizeTopology hp)).apply (.setNumberOfThreads th.toNat!)
+              else (st0.apply (.setNumberOfThreads th.toNat!)).apply (.realizeTopology hp)
+    let D := d.toNat!
+    -- mode NonCached: the caller then adds the cache filled by an earlier CachedAndNonCached realization
+    let cache : V := if mode == .nonCached then C17.cacheSum forces else 0
+    if !C17.ThreadSafe st then
+      -- outside the validity of the transition-system model (non-parallel task on >= 2 workers, see
+      -- `threads_after_topology_unsafe`): print what the property demands, the serial sum over the enabled forces
+      " ".intercalate (["O", "cf"] ++ (padTo D (C17.serialSumD mode forces + cache)).map toString)
+    else
+    let c := C17.configOfState st mode all
     let s := C17.run c (C17.init (0 : V)) (C17.sequentialSchedule c)
     let complete := (List.range c.n).all (fun w => (s.wk w).pc == .done)
     if !complete then "O cf MODEL-INCOMPLETE" else
-    -- mode NonCached: the caller then adds the cache filled by an earlier CachedAndNonCached realization
-    let cache : V := if mode == .nonCached then C17.sumList ((forces.filter (·.posOnly)).map (·.value)) else 0
-    let total := (s.shared + cache).a
-    let D := d.toNat!
-    let padded := total ++ List.replicate (D - total.length) 0
-    " ".intercalate (["O", "cf"] ++ padded.map toString)
+    " ".intercalate (["O", "cf"] ++ (padTo D (s.shared + cache)).map toString)
   | _ => "O cf ERR"
 
 end C17Drv
